@@ -382,8 +382,8 @@ func (b *Builder) findRegistryPackageSource(ctx context.Context, sourceAddr sour
 		}
 	}
 
-	selectedVersion := availableVersions.NewestInSet(allowedVersions)
-	if selectedVersion == versions.Unspecified {
+	selectedVersion, ok := newestAllowedVersion(availableVersions, allowedVersions)
+	if !ok {
 		return sourceaddrs.RemoteSource{}, fmt.Errorf("no available version of %s matches the specified version constraint", pkgAddr)
 	}
 
@@ -758,6 +758,21 @@ func packagePrepareWalkFn(root string, ignoreRules *ignorefiles.Ruleset) filepat
 
 		return nil
 	}
+}
+
+// newestAllowedVersion returns the newest of the given versions that the
+// allowed set contains. It differs from versions.List.NewestInSet only in
+// telling "none" apart from version 0.0.0, which that method answers for both:
+// 0.0.0 and its pre-releases are versions a registry can offer.
+func newestAllowedVersion(vs versions.List, allowed versions.Set) (versions.Version, bool) {
+	var ret versions.Version
+	found := false
+	for i := len(vs) - 1; i >= 0; i-- {
+		if (!found || vs[i].GreaterThan(ret)) && allowed.Has(vs[i]) {
+			ret, found = vs[i], true
+		}
+	}
+	return ret, found
 }
 
 func extractVersionListFromResponse(modPackageInfos []ModulePackageInfo) versions.List {
